@@ -44,11 +44,11 @@ fn expand_brace_expr_member(bem: word::BraceExpressionMember) -> Box<dyn Iterato
                 Box::new((start..=end).step_by(increment).map(|n| n.to_string()))
             } else {
                 // Iterate from start down to end by decrementing.
-                #[allow(clippy::cast_possible_wrap)]
-                let increment = increment as i64;
+                let increment = i64::try_from(increment).unwrap_or(i64::MAX);
                 Box::new(
                     std::iter::successors(Some(start), move |&n| {
-                        let next = n - increment;
+                        // N.B. Running off the end of the integer range ends the sequence.
+                        let next = n.checked_sub(increment)?;
                         (next >= end).then_some(next)
                     })
                     .map(|n| n.to_string()),
@@ -70,10 +70,12 @@ fn expand_brace_expr_member(bem: word::BraceExpressionMember) -> Box<dyn Iterato
                 Box::new((start..=end).step_by(increment).map(|c| c.to_string()))
             } else {
                 // Iterate from start down to end by decrementing.
-                let increment = increment as u32;
+                // N.B. An increment beyond the range of characters must not truncate to a
+                // smaller (or zero) one.
+                let increment = u32::try_from(increment).unwrap_or(u32::MAX);
                 Box::new(
                     std::iter::successors(Some(start), move |&c| {
-                        let next = char::from_u32(c as u32 - increment)?;
+                        let next = char::from_u32((c as u32).checked_sub(increment)?)?;
                         (next >= end).then_some(next)
                     })
                     .map(|c| c.to_string()),
